@@ -104,6 +104,12 @@ def shape_emit(tree):
     caught = caught_set(h.type)
     hb = [ast.unparse(s) for s in h.body]
     want = ["if not self._error_interceptor.should_catch():\n    raise", "self._error_interceptor.print(record)"]
+    if len(h.body) == 3 and isinstance(h.body[0], ast.Assign) and len(h.body[0].targets) == 1 \
+            and isinstance(h.body[0].targets[0], ast.Name) \
+            and ast.unparse(h.body[0].value) == "self._error_interceptor.should_catch()":
+        # the flag read into a local first: same thing
+        hb = [x.replace("not %s:" % h.body[0].targets[0].id, "not self._error_interceptor.should_catch():")
+              for x in hb[1:]]
     if hb != want:
         raise Unsupported("Handler.emit: except body is %r" % (hb,))
     # the with-statement of the lock
@@ -113,8 +119,14 @@ def shape_emit(tree):
         raise Unsupported("Handler.emit: `with self._protected_lock()` is not the last statement of the try")
     w = withs[0]
     wb = w.body
+    def handoff(stmts, callee):
+        return len(stmts) == 1 and isinstance(stmts[0], ast.Expr) and isinstance(stmts[0].value, ast.Call) \
+            and ast.unparse(stmts[0].value.func) == callee and len(stmts[0].value.args) == 1 \
+            and isinstance(stmts[0].value.args[0], ast.Name) and not stmts[0].value.keywords
     if not (len(wb) == 2 and ast.unparse(wb[0]) == "if self._stopped:\n    return"
-            and ast.unparse(wb[1]) == "if self._enqueue:\n    self._queue.put(str_record)\nelse:\n    self._sink.write(str_record)"):
+            and isinstance(wb[1], ast.If) and ast.unparse(wb[1].test) == "self._enqueue"
+            and handoff(wb[1].body, "self._queue.put") and handoff(wb[1].orelse, "self._sink.write")
+            and wb[1].body[0].value.args[0].id == wb[1].orelse[0].value.args[0].id):
         raise Unsupported("Handler.emit: body of the locked section changed: %r" % ([ast.unparse(s) for s in wb],))
     # stage order before the lock: first occurrence of each stage's call
     first = {}
